@@ -67,14 +67,17 @@ class UnitResult:
         self.lemmas = []
         self.cmd = ""
         self.limit_hit = None
+        self.notes = []
         self.unproven = []      # (fn_id, text): assert!-family macros of the real code that were not proven; undecided, never a violation
 
 
-def _run_verus(path, multiple_errors=10, timeout=900, rlimit=None):
+def _run_verus(path, multiple_errors=10, timeout=900, rlimit=None, extra=None):
     cmd = ["verus", path, "--output-json", "--time", "--multiple-errors", str(multiple_errors),
            "--error-format=json"]
     if rlimit:
         cmd += ["--rlimit", str(rlimit)]
+    if extra:
+        cmd += list(extra)
     env = dict(os.environ)
     t0 = time.time()
     try:
@@ -169,7 +172,7 @@ def names_with_requires(text):
     return names
 
 
-def run_unit(name, repo="/repo", keep=None, rlimit=None, canary=True):
+def run_unit(name, repo="/repo", keep=None, rlimit=None, canary=True, confirm=None):
     res = UnitResult(name)
     t0 = time.time()
     tmpl = os.path.join(VERIF, "units", name + ".rs.tmpl")
@@ -205,6 +208,8 @@ def run_unit(name, repo="/repo", keep=None, rlimit=None, canary=True):
         _digest_main(res, main, out, diags, raw)
         if res.limit_hit:
             _retry_limited(res, main, mp)
+        if confirm is not None and res.failures and res.status == "failures":
+            _confirm_isolated(res, main, mp, confirm)
         if can and res.status != "undecided":
             _digest_canary(res, can, *cres[:3])
         _count_obligations(res, main)
@@ -304,6 +309,9 @@ def _digest_main(res, unit, out, diags, raw):
             lab = sp.get("label") or ""
             if "at the end of the function body" in lab or "at this exit" in lab or "function body" in lab:
                 continue
+            if os.path.basename(sp.get("file_name", "")) not in ("%s.rs" % res.name, "%s_canary.rs" % res.name):
+                parts.append("<%s>" % (sp.get("label") or "clause in vstd"))     # a clause of a vstd specification (e.g. unwrap)
+                continue
             parts.append(_clean(_span_text(data, sp))[:110])
         if fn_r is None:
             # a failing lemma / spec written in the template itself
@@ -329,7 +337,9 @@ def _digest_main(res, unit, out, diags, raw):
         res.status, res.undecided_reason = "undecided", limit_hit
     elif res.unproven:
         pass        # reported by the driver as undecided for the properties the enclosing function serves
-    elif not vr.get("success", False):
+    elif not vr.get("success", (not vr.get("is-verifying-entire-crate", True)) and vr.get("errors", 0) == 0
+                    and not vr.get("encountered-error") and vr.get("verified", 0) >= 1):
+        # (partial runs with --verify-function carry no "success" key: judged by errors == 0 and verified >= 1)
         res.status, res.undecided_reason = "undecided", "verus reported failure without a diagnostic: %s" % raw[:500]
 
 
@@ -379,6 +389,57 @@ def _retry_limited(res, unit, mp):
         res.limit_hit = None
         if not res.failures:
             res.status, res.undecided_reason = "ok", None
+
+
+def _confirm_isolated(res, unit, mp, wants):
+    """Solver instability guard. In the whole-file run all functions share one Z3 process; after a failing query a later
+    function can (rarely) fail for no semantic reason. Every failure that would be REPORTED (wants(f)) is therefore
+    re-checked with its function verified alone. A function that verifies alone is proved (a proof is a proof), so its
+    whole-file failures are dropped and noted; a failure that reproduces, or cannot be re-checked, stands."""
+    by_fn = {}
+    for f in res.failures:
+        if f.fn_id != "<template>" and wants(f):
+            by_fn.setdefault(f.fn_id, []).append(f)
+    if not by_fn or len(by_fn) > 8:
+        return
+    for fn_id, fails in by_fn.items():
+        bare = fn_id.split("::")[-1]
+        typ = fn_id.split("::")[-2].split(":")[-1] if "::" in fn_id and not fn_id.startswith(("xlsx::", "csv::")) else None
+        cands = []
+        for key in res.fn_times:
+            segs = key.split("::")
+            if segs[-1] != bare:
+                continue
+            if typ is not None and (len(segs) < 2 or segs[-2] != typ):
+                continue
+            cands.append(segs[1:])
+        if len(cands) != 1:
+            continue
+        segs = cands[0]
+        attempts = [["--verify-root", "--verify-function", "::".join(segs)]]
+        if len(segs) >= 2:
+            attempts.append(["--verify-module", segs[0], "--verify-function", "::".join(segs[1:])])
+        for extra in attempts:
+            out, diags, raw, wall, cmd = _run_verus(mp, 12, 600, 40, extra)
+            if out is None:
+                continue
+            vr = out.get("verification-results", {})
+            if vr.get("verified", 0) + vr.get("errors", 0) == 0:
+                continue            # pattern matched nothing in this module
+            sub = UnitResult(res.name)
+            _digest_main(sub, unit, out, diags, raw)
+            clean = (not sub.failures and not sub.limit_hit and not sub.unproven and not vr.get("encountered-error")
+                     and not vr.get("encountered-vir-error"))
+            if clean and vr.get("errors", 0) == 0 and vr.get("verified", 0) >= 1:
+                for f in fails:
+                    res.failures.remove(f)
+                    res.notes.append("obligation %s failed in the whole-file run but %s verifies when checked alone "
+                                     "(solver instability in the shared Z3 process); counted as discharged" % (f.ident[:160], fn_id))
+            break
+    if not res.failures:
+        res.status = "ok" if not res.limit_hit else "undecided"
+        if res.limit_hit:
+            res.undecided_reason = res.limit_hit
 
 
 def _digest_canary(res, can, out, diags, raw):
